@@ -1319,10 +1319,33 @@ def _is_record_list(e, aliases) -> bool:
     return ap(e) == "flow.metadata[]" or (isinstance(e, ast.Name) and e.id in aliases)
 
 
+def _same_guard(a: Set[Tuple[str, bool]], b: Set[Tuple[str, bool]], lst: str) -> bool:
+    """Equal guards, ignoring `<x> in <the request list>` (the loop that removes every occurrence adds it)."""
+    def strip(s_):
+        return {(t, p) for t, p in s_ if not (p and t.endswith(f" in {lst}"))}
+    return strip(a) == strip(b)
+
+
 def _metadata_keys(nodes, into) -> None:
     for n in nodes:
         if isinstance(n, ast.Subscript) and ap(n.value) == "flow.metadata" and isinstance(n.slice, ast.Constant):
             into.add(n.slice.value)
+
+
+def _selects_proxy_only(model: Model, m) -> bool:
+    """The region method returns a URL taken from an entry it found by `type == CapType.PROXY_ONLY` among ALL entries
+    of the name (getall / items), not just the newest one."""
+    fl = RoleFlow(model, m)
+    for r in returns_of(m.node):
+        if r.value is None or isinstance(r.value, ast.Constant):
+            continue
+        for e, pol in facts(r, m.node):
+            if isinstance(e, ast.Compare) and len(e.ops) == 1 and isinstance(e.ops[0], (ast.Eq, ast.Is)) and pol:
+                for x, y in ((e.left, e.comparators[0]), (e.comparators[0], e.left)):
+                    if model.captype_member(y, m.module) == "PROXY_ONLY" and fl.role_of(x) == TYPE and \
+                            "all" in fl.scope_for(x) and "first" not in fl.scope_for(x) and fl.role_of(r.value) == URL:
+                        return True
+    return False
 
 
 def r5(ctx, model: Model):
@@ -1387,13 +1410,21 @@ def r5(ctx, model: Model):
                    not newest_only, ctx.w(rq, n),
                    f"{newest_only} come(s) from a by-name lookup, which only yields the newest entry: a PROXY_ONLY entry "
                    f"shadowed by a later grant under the same name is sent upstream")
+        # list.remove() drops the first occurrence only: the name may be listed more than once
+        repeated = any(isinstance(a, ast.While) and any(
+            isinstance(e, ast.Compare) and len(e.ops) == 1 and isinstance(e.ops[0], ast.In) and
+            norm(e.left) == norm(n.args[0]) and ap(e.comparators[0]) == lst for e, p_ in atoms(a.test, True) if p_)
+            for a in ancestors(n))
+        ctx.ob("C16.R5", "seed request: every occurrence of a stripped name is removed", repeated, ctx.w(rq, n),
+               f"`{norm(n)}` removes the first occurrence only (not inside `while {norm(n.args[0])} in {lst}`): a name listed "
+               f"twice in the request is still sent upstream")
         twin = [r for r in records if norm(r.args[0]) == norm(n.args[0]) and
-                _branch_facts(r, br, rq.node) == _branch_facts(n, br, rq.node)]
+                _same_guard(_branch_facts(r, br, rq.node), _branch_facts(n, br, rq.node), lst)]
         ctx.ob("C16.R5", f"seed request: `{norm(n)}` is recorded for the response", len(twin) >= 1, ctx.w(rq, n),
                "a stripped name is not remembered: the viewer never receives its proxy URL")
     for r in records:
         twin = [n for n in removes if norm(r.args[0]) == norm(n.args[0]) and
-                _branch_facts(r, br, rq.node) == _branch_facts(n, br, rq.node)]
+                _same_guard(_branch_facts(r, br, rq.node), _branch_facts(n, br, rq.node), lst)]
         ctx.ob("C16.R5", f"seed request: recorded name `{norm(r.args[0])}` is also stripped", len(twin) >= 1, ctx.w(rq, r),
                "a recorded proxy-only name is still sent upstream")
     # request body rewritten from the stripped list
@@ -1494,6 +1525,14 @@ def r5(ctx, model: Model):
             ctx.ob("C16.R5", "seed response: every recorded proxy-only name is re-added", not cond, where,
                    f"conditional on {sorted(cond)}")
             by_name = False
+            proxy_entry = False
+            for x in ast.walk(v):
+                if isinstance(x, ast.Call) and isinstance(x.func, ast.Attribute) and x.args and ap(x.args[0]) == lv:
+                    m_ = repo.lookup_method(model.region, x.func.attr)
+                    if m_ is not None and model.in_region_class(m_) and _selects_proxy_only(model, m_):
+                        by_name = proxy_entry = True
+                    if call_attr(x) == "register_proxy_cap":
+                        proxy_entry = True
             for x in ast.walk(v):
                 if isinstance(x, ast.Subscript) and isinstance(x.value, ast.Attribute) and x.value.attr == "cap_urls" and \
                         ap(x.slice) == lv:
@@ -1508,6 +1547,9 @@ def r5(ctx, model: Model):
                     by_name = True
             ctx.ob("C16.R5", "seed response: a re-added name gets the URL registered under that name", by_name, where,
                    f"`{norm(v)}` is not the region's URL for `{lv}`")
+            ctx.ob("C16.R5", "seed response: a re-added name gets the URL of its PROXY_ONLY entry", proxy_entry, where,
+                   f"`{norm(v)}` is the newest URL granted under `{lv}`: if the simulator granted a cap of that name too "
+                   f"(update_caps has just prepended it) the viewer is handed the simulator's URL, not the proxy's")
         else:
             ctx.ob("C16.R5", f"seed response: `{norm(st.node)}` is a wrapper or a recorded proxy-only cap", False, where,
                    "the simulator's capability map is overwritten by something else")
@@ -1526,14 +1568,18 @@ FRESH_CALLS = {"uuid.uuid4", "uuid4", "uuid.uuid1", "secrets.token_hex", "secret
                "os.urandom"}
 
 
-def _provenance(fl: RoleFlow, e, seen=None) -> Set[Tuple[str, str]]:
-    """Leaves an expression's value is computed from: ('shared'|'session'|'unknown', description)."""
+_SPLITTERS = ("split", "rsplit", "partition", "rpartition", "splitlines")
+
+
+def _provenance(fl: RoleFlow, e, seen=None, partial=False) -> Set[Tuple[str, str]]:
+    """Leaves an expression's value is computed from: ('shared'|'session'|'session-part'|'unknown', description).
+    'session-part': only a fragment (one element of a split, a slice) of a per-session value is used."""
     seen = set() if seen is None else seen
     fn = fl.fn
     out: Set[Tuple[str, str]] = set()
 
-    def rec(x):
-        out.update(_provenance(fl, x, seen))
+    def rec(x, part=None):
+        out.update(_provenance(fl, x, seen, partial if part is None else part))
     if e is None or isinstance(e, ast.Constant):
         return out
     if isinstance(e, ast.Name):
@@ -1543,9 +1589,20 @@ def _provenance(fl: RoleFlow, e, seen=None) -> Set[Tuple[str, str]]:
         if e.id in fl.params:
             out.add(("shared", f"parameter {e.id}"))
             return out
-        vals = [st.value for st in stores(fn) if st.path == e.id and st.value is not None]
+        vals = []
+        for st in stores(fn):
+            if st.path == e.id and st.value is not None:
+                tgt0 = getattr(st.node, "targets", [None])[0]
+                frag = isinstance(tgt0, (ast.Tuple, ast.List)) and isinstance(st.value, ast.Call) and \
+                    call_attr(st.value) in _SPLITTERS
+                if frag:
+                    rec(st.value, True)       # one element of an unpacked split
+                else:
+                    vals.append(st.value)
         loops = [n for n in walk(fn, into_defs=True) if isinstance(n, (ast.For, ast.comprehension)) and
                  e.id in {t.id for t in ast.walk(n.target) if isinstance(t, ast.Name)}]
+        if not vals and not loops and out:
+            return out
         if not vals and not loops:
             if e.id in fl.mod.imports or e.id in ("str", "bytes", "int", "list", "tuple", "repr", "hex", "len"):
                 return out
@@ -1578,16 +1635,19 @@ def _provenance(fl: RoleFlow, e, seen=None) -> Set[Tuple[str, str]]:
         if fl.table_of(e.value) == "caps":
             k = e.slice
             if isinstance(k, ast.Constant) and k.value == "Seed":
-                out.add(("session", "the region's Seed capability URL"))
+                out.add(("session-part" if partial else "session", "the region's Seed capability URL"))
             else:
                 out.add(("shared", f"the URL of cap {norm(k)} (asset caps are global)"))
                 rec(k)
             return out
-        rec(e.value)
+        frag = isinstance(e.slice, ast.Slice) or (isinstance(e.value, ast.Call) and call_attr(e.value) in _SPLITTERS)
+        rec(e.value, True if frag else None)
         rec(e.slice)
         return out
     if isinstance(e, ast.Call):
         name = ap(e.func) or ""
+        if name.startswith("hashlib.") or call_attr(e) in ("hexdigest", "digest", "sha256", "sha1", "md5", "blake2b"):
+            partial = False      # a digest mixes all of its input: a slice of it is no fragment of the input
         if name in FRESH_CALLS:
             out.add(("session", f"{name}()"))
             return out
@@ -1599,7 +1659,7 @@ def _provenance(fl: RoleFlow, e, seen=None) -> Set[Tuple[str, str]]:
                 rets = [r.value for r in returns_of(m.node) if r.value is not None]
                 if rets:
                     for rv in rets:
-                        for kind_, d_ in _provenance(sub, rv, set()):
+                        for kind_, d_ in _provenance(sub, rv, set(), partial):
                             if not (kind_ == "shared" and d_.startswith("parameter ")):
                                 out.add((kind_, d_))
                     for a in e.args:
@@ -1673,15 +1733,22 @@ def r6(ctx, model: Model):
                 continue
             n += 1
             prov = _provenance(fl, url_e)
-            sess = sorted(d for k, d in prov if k == "session")
+            whole = sorted(d for k, d in prov if k == "session")
+            parts = sorted(d for k, d in prov if k == "session-part")
+            sess = sorted(set(whole) | set(parts))
             unk = sorted(d for k, d in prov if k == "unknown")
             shared = sorted(d for k, d in prov if k == "shared")
             if not sess and unk:
                 ctx.note(f"C16.R6: {m.qual}: {kind} URL depends on {unk} which the checker cannot classify")
-            ctx.ob("C16.R6", f"{m.qual}: the {kind} URL is tied to the session (Seed URL / session / fresh random value)",
+            mq = f"ProxiedRegion.{m.name}"     # stable across pull-ups into a mixin / base class
+            ctx.ob("C16.R6", f"{mq}: the {kind} URL is tied to the session (Seed URL / session / fresh random value)",
                    bool(sess) or bool(unk), ctx.w(m, c),
                    f"`{norm(url_e)}` is computed only from {shared}: two sessions on the same simulator get the same URL "
                    f"and requests are attributed to whichever session resolves first")
+            ctx.ob("C16.R6", f"{mq}: the {kind} URL depends on a whole per-session value, not on a fragment of one",
+                   bool(whole) or bool(unk) or not parts, ctx.w(m, c),
+                   f"only a fragment (one element of a split / a slice) of {parts} is used: the fragment can be empty or shared "
+                   f"(a Seed URL ending in '/' has an empty last segment), so every region of every session gets the same URL")
     ctx.floor("C16.R6", "proxy-minted cap URLs", n, 2)
 
 
@@ -2182,6 +2249,95 @@ def r11(ctx, model: Optional[Model] = None):
     ctx.floor("C16.R11", "cap-registering addon hooks", n, 1)
 
 
+def _length_ordered(fn_node) -> bool:
+    """Some choice in the function is made by URL length: max(..., key=len) / sorted(..., key=len...) / a comparison
+    one side of which is a len(...)."""
+    for n in walk(fn_node, into_defs=True):
+        if isinstance(n, ast.Call) and ap(n.func) in ("max", "sorted", "min") and \
+                any(k.arg == "key" and any(isinstance(x, ast.Name) and x.id == "len" for x in ast.walk(k.value)) for k in n.keywords):
+            return True
+        if isinstance(n, ast.Call) and isinstance(n.func, ast.Attribute) and n.func.attr == "sort" and \
+                any(k.arg == "key" and any(isinstance(x, ast.Name) and x.id == "len" for x in ast.walk(k.value)) for k in n.keywords):
+            return True
+        if isinstance(n, ast.Compare) and any(isinstance(o, (ast.Gt, ast.GtE, ast.Lt, ast.LtE)) for o in n.ops) and \
+                any(isinstance(x, ast.Call) and ap(x.func) == "len" for x in [n.left] + list(n.comparators)):
+            return True
+    return False
+
+
+def r12(ctx, model: Optional[Model] = None):
+    repo = ctx.repo
+    model = model or Model(ctx)
+    ctx.rule("C16.R12", "several entries can answer one lookup: of the granted URLs a request extends the LONGEST one wins "
+                        "(within a region and across global caps, regions and sessions, losers are only peeked at); an "
+                        "existing proxy-only cap is looked for among every entry of its name")
+    from .c18 import inline_self_calls
+    from .common import class_methods_reachable
+    rebuild = model.rebuild_method()
+    for q in ("ProxiedRegion.resolve_cap", "Session.resolve_cap", "SessionManager.resolve_cap"):
+        fi = repo.fn(q)
+        code = [inline_self_calls(repo, g, exclude=(rebuild.name,)) for g in class_methods_reachable(repo, fi, depth=2)
+                if g.name != rebuild.name]
+        ordered = any(_length_ordered(g.node) for g in code)
+        ctx.ob("C16.R12", f"{q}: of several granted URLs the request extends, the longest one wins", ordered, fi.where,
+               "the first startswith() hit in table order is returned; with prefix-related cap URLs (/cap/1234 and "
+               "/cap/12345678) the request for the longer one resolves to - and consumes - the cap, region and session "
+               "of the shorter one")
+        if q != "ProxiedRegion.resolve_cap":
+            peeks = []
+            for g in code:
+                for c in find_calls(g.node, "resolve_cap"):
+                    if isinstance(c.func, ast.Attribute) and any(isinstance(a, (ast.For, ast.comprehension, ast.GeneratorExp, ast.ListComp))
+                                                                  for a in ancestors(c)):
+                        peeks.append(c)
+            bad = [norm(c) for c in peeks if not any(k.arg == "consume" and isinstance(k.value, ast.Constant) and
+                                                     k.value.value is False for k in c.keywords)]
+            ctx.ob("C16.R12", f"{q}: candidates are only peeked at, the winner alone is consumed",
+                   bool(peeks) and not bad, fi.where,
+                   f"{bad or 'no candidate loop'}: asking every candidate with consumption on uses up one-shot caps of "
+                   f"candidates that lose (or wins by table order before the comparison)")
+    # registering a proxy-only cap twice yields the same URL: the existing entry is searched for among all entries
+    rp = repo.fn("ProxiedRegion.register_proxy_cap")
+    fl = RoleFlow(model, rp)
+    found_all = False
+    newest = []
+    for n in walk(rp.node):
+        if isinstance(n, ast.Compare) and len(n.ops) == 1:
+            for x, y in ((n.left, n.comparators[0]), (n.comparators[0], n.left)):
+                if model.captype_member(y, rp.module) == "PROXY_ONLY" and fl.role_of(x) == TYPE:
+                    if "all" in fl.scope_for(x) and "first" not in fl.scope_for(x):
+                        found_all = True
+                    else:
+                        newest.append(norm(n))
+    for c in calls(rp.node):
+        if isinstance(c.func, ast.Attribute) and isinstance(c.func.value, ast.Name) and c.func.value.id == "self":
+            m_ = repo.lookup_method(model.region, c.func.attr)
+            if m_ is not None and m_.node is not rp.node and _selects_proxy_only(model, m_):
+                found_all = True
+    ctx.ob("C16.R12", "register_proxy_cap looks for an existing PROXY_ONLY entry among every entry of the name",
+           found_all and not newest, rp.where,
+           f"{newest or 'no PROXY_ONLY test'}: only the newest entry of the name is inspected; once the simulator granted a "
+           f"cap of that name, registering the proxy-only cap again mints a second URL")
+
+
+def r13(ctx, model: Optional[Model] = None):
+    repo = ctx.repo
+    model = model or Model(ctx)
+    ctx.rule("C16.R13", "granted cap URLs are indexed in the form the HTTP front end reports request URLs in (mitmproxy "
+                        "drops a scheme's default port): the index key goes through a normalisation")
+    rb = model.rebuild_method()
+    fl = RoleFlow(model, rb)
+    fills = [st for st in stores(rb.node) if st.path == "self._caps_url_lookup" and st.kind == "setitem"]
+    ctx.require(bool(fills), "index rebuild no longer fills _caps_url_lookup")
+    for st in fills:
+        key = st.target.slice
+        verbatim = isinstance(key, (ast.Name, ast.Subscript)) and fl.role_of(key) == URL
+        ctx.ob("C16.R13", "the URL index key is normalised like request URLs (default port dropped)", not verbatim,
+               ctx.w(rb, st.node),
+               f"`{norm(key)}` is the granted string verbatim: a cap granted as http://host:80/... or https://host:443/... never "
+               f"resolves, because the request URL arrives without the default port")
+
+
 def run(ctx):
     model = Model(ctx)
     r1(ctx, model)
@@ -2195,8 +2351,10 @@ def run(ctx):
     r9(ctx, model)
     r10(ctx, model)
     r11(ctx, model)
-    ctx.note("C16: resolve_cap returns the first startswith() match in index order; resolution with prefix-related "
-             "URLs across caps/regions/sessions is not decided")
+    r12(ctx, model)
+    r13(ctx, model)
+    ctx.note("C16: with prefix-related URLs C16.R12 only decides that the choice is made by URL length and that losers are "
+             "not consumed; equal-length ties between tables keep table order")
     ctx.assume("multidict.MultiDict: add() appends, [] / get() return the first value, popall() removes all values "
                "of a key, items() iterates in insertion order")
     ctx.assume("`.caps` on a non-self receiver in modules that import hippolyzer.lib.proxy is a ProxiedRegion.caps table")
